@@ -179,6 +179,28 @@ func TextTails() [][]byte {
 	return out
 }
 
+// MarkupHostile: HTML / XML whose meta / prologue text stresses the hand-written
+// scanners (the word charset without '=', unterminated quotes, odd separators).
+func MarkupHostile() [][]byte {
+	var out [][]byte
+	contents := []string{"charset", "charset ", "charset;", "charset utf-8", "How to declare the charset of a page", "text/html; charset", "text/html; charset utf-8", "xcharsetx", "charset=", "charset =", "charset= ", "charset='", "charset=\"", "charset='x", "charset=;", "charsetcharset=x", "charset charset = y", "CHARSET", "charset\t\n=\r x", ";;;charset;;;=;;;", "charset=\x00", ""}
+	for _, c := range contents {
+		for _, tpl := range []string{"<html><meta content=\"%s\">", "<html><meta http-equiv=\"Content-Type\" content=\"%s\">", "<html><meta name=\"description\" content='%s'>", "<html><meta content=%s http-equiv=content-type>", "<html><meta charset=\"%s\" content=\"%s\">"} {
+			x := bytes.ReplaceAll([]byte(tpl), []byte("%s"), []byte(c))
+			out = append(out, x, x[:len(x)-1], append(append([]byte{0xEF, 0xBB, 0xBF}, x...), "<p>"...))
+		}
+	}
+	prologs := []string{"<?xml", "<?xml ", "<?xml version", "<?xml version=", "<?xml version=\"1.0\" encoding", "<?xml version=\"1.0\" encoding=", "<?xml version=\"1.0\" encoding=\"", "<?xml version=\"1.0\" encoding='x", "<?xml version=\"1.0\" encoding=\"x\"", "<?xml version=\"1.0\" encoding=\"x\"?", "<?xml encoding=encoding=encoding=?>", "<?xml ?>", "<?xml?>", "<?xml version='2.0' encoding='x'?>", "<?xml\tversion=\"1.0\"?>"}
+	for _, pr := range prologs {
+		out = append(out, []byte(pr), []byte(" \n"+pr), []byte(pr+"<a>"))
+	}
+	tags := []string{"<html", "<html ", "<html>", "<HTML><", "<html><meta", "<html><meta ", "<html><meta charset", "<html><meta charset=", "<html><!--", "<html><!-- --", "<html><script>", "<html><script><meta charset=x>", "<html><title>", "<html><textarea><meta charset=\"x\">", "<html><meta charset=x", "<html><META CHARSET=X/>", "<html></meta charset=x>", "<html><meta\x00charset=x>", "<html><meta charset=&#x75;tf-8>"}
+	for _, t := range tags {
+		out = append(out, []byte(t))
+	}
+	return out
+}
+
 // SmallBoxes: ftyp / RIFF / misc headers at every length around their guards.
 func SmallBoxes() [][]byte {
 	var out [][]byte
